@@ -1369,6 +1369,48 @@ fn vp_native_resumed_body_keeps_prefix_body() {
     println!("VP-NATIVE resumed_body_keeps_prefix cases={}", cases);
 }
 
+/// C06: a coded body is complete when its frame is: with the connection left open after the last byte of the body (keep-alive peers,
+/// proxies that linger), every helper hands out exactly the decoded payload and the end without waiting for the peer to do anything
+#[test]
+fn vp_native_coded_body_complete_with_connection_open() { crate::verif_native_watchdog::watched(vp_native_coded_body_complete_with_connection_open_body); }
+fn vp_native_coded_body_complete_with_connection_open_body() {
+    use std::io::Write as _;
+    let payload: Vec<u8> = (0..30_000u32).map(|i| b"coded bodies end where their frame ends "[(i % 40) as usize]).collect();
+    let gz = |d: &[u8], l: u32| { let mut e = flate2::write::GzEncoder::new(Vec::new(), flate2::Compression::new(l)); e.write_all(d).unwrap(); e.finish().unwrap() };
+    let df = |d: &[u8], l: u32| { let mut e = flate2::write::DeflateEncoder::new(Vec::new(), flate2::Compression::new(l)); e.write_all(d).unwrap(); e.finish().unwrap() };
+    let codings: Vec<(&str, Vec<u8>)> = vec![("gzip", gz(&payload, 6)), ("gzip", gz(&payload, 0)), ("deflate", df(&payload, 6)), ("deflate", df(&payload, 0)), ("identity", payload.clone())];
+    let mut cases = 0u64;
+    for (coding, coded) in &codings { for framing in ["length", "chunked"] { for helper in ["bytes", "reads-4096", "reads-1", "write_to", "text_utf8"] {
+        if helper == "reads-1" && framing == "chunked" { continue; }
+        let l = TcpListener::bind("127.0.0.1:0").unwrap();
+        let port = l.local_addr().unwrap().port();
+        let (coding2, coded2) = (coding.to_string(), coded.clone());
+        std::thread::spawn(move || {
+            if let Ok((mut s, _)) = l.accept() {
+                let mut r = BufReader::new(s.try_clone().unwrap());
+                loop { let mut h = String::new(); if r.read_line(&mut h).unwrap_or(0) == 0 || h == "\r\n" { break; } }
+                let mut w = format!("HTTP/1.1 200 OK\r\nContent-Encoding: {}\r\n", coding2).into_bytes();
+                if framing == "length" { w.extend_from_slice(format!("Content-Length: {}\r\n\r\n", coded2.len()).as_bytes()); w.extend_from_slice(&coded2); }
+                else { w.extend_from_slice(b"Transfer-Encoding: chunked\r\n\r\n"); for c in coded2.chunks(7000) { w.extend_from_slice(format!("{:x}\r\n", c.len()).as_bytes()); w.extend_from_slice(c); w.extend_from_slice(b"\r\n"); } w.extend_from_slice(b"0\r\n\r\n"); }
+                s.write_all(&w).ok(); s.flush().ok();
+                std::thread::sleep(std::time::Duration::from_millis(9000));   // the connection stays open and silent
+            }
+        });
+        let ctx = format!("{} body ({} coded bytes) under {} framing, connection left open, read through {}", coding, coded.len(), framing, helper);
+        let mut resp = crate::get(format!("http://127.0.0.1:{}/", port)).proxy_settings(crate::ProxySettings::builder().build()).read_timeout(std::time::Duration::from_millis(4000)).send().unwrap_or_else(|e| panic!("{}: {}", ctx, e));
+        let got: Vec<u8> = match helper {
+            "bytes" => resp.bytes().unwrap_or_else(|e| panic!("an intact response was refused ({}): {}", ctx, e)),
+            "write_to" => { let mut v = Vec::new(); resp.write_to(&mut v).unwrap_or_else(|e| panic!("an intact response was refused ({}): {}", ctx, e)); v }
+            "text_utf8" => resp.text_utf8().unwrap_or_else(|e| panic!("an intact response was refused ({}): {}", ctx, e)).into_bytes(),
+            _ => { let size = if helper == "reads-1" { 1 } else { 4096 }; let mut v = Vec::new();
+                   loop { let mut b = vec![0u8; size]; match resp.read(&mut b) { Ok(0) => break, Ok(n) => v.extend_from_slice(&b[..n]), Err(e) => panic!("an intact response was refused after {} bytes ({}): {}", v.len(), ctx, e) } } v }
+        };
+        cases += 1; crate::verif_native_watchdog::progress();
+        assert!(got == payload, "{}: {} bytes instead of the {} decoded ones", ctx, got.len(), payload.len());
+    } } }
+    println!("VP-NATIVE coded_body_complete_with_connection_open cases={}", cases);
+}
+
 /// C19: sending returns once the head has arrived, and every body byte that has arrived can be read without waiting for more:
 /// length- and close-delimited bodies, the server pausing after k body bytes, every caller read size (smaller, equal, larger)
 #[test]
@@ -1419,6 +1461,8 @@ fn vp_native_body_delivered_as_it_arrives_body() {
     } } }
     // responses without a body: sending returns at the blank line and the empty body is read without waiting, the server holding the connection open
     for (kind, head) in [("Content-Length: 0", "HTTP/1.1 200 OK\r\nContent-Length: 0\r\n\r\n"), ("204", "HTTP/1.1 204 No Content\r\n\r\n"), ("304", "HTTP/1.1 304 Not Modified\r\nContent-Length: 10\r\n\r\n"),
+                         // interim heads: the head that has arrived is the response that is returned; nothing waits for a later one
+                         ("100", "HTTP/1.1 100 Continue\r\n\r\n"), ("102", "HTTP/1.1 102 Processing\r\n\r\n"), ("103", "HTTP/1.1 103 Early Hints\r\nLink: </s.css>; rel=preload\r\n\r\n"), ("199 with a length", "HTTP/1.1 199 X\r\nContent-Length: 10\r\n\r\n"),
                          ("HEAD", "HTTP/1.1 200 OK\r\nContent-Length: 10\r\n\r\n"), ("HEAD chunked", "HTTP/1.1 200 OK\r\nTransfer-Encoding: chunked\r\n\r\n")] {
         let l = TcpListener::bind("127.0.0.1:0").unwrap();
         let port = l.local_addr().unwrap().port();
